@@ -81,50 +81,73 @@ def replay(inp):
 
 
 # ----------------------------------------------------------------------------- count / inclusive range expansion (C18) on the real runner
-def expansion_cfg(kind, spec):
+def expansion_cfg(kind, specs):
+    """one group per spec, listed in order (groups G0, G1, ...): counts and ranges are per group"""
     m = {"class": "Market", "tickSize": 1.0, "marketPrice": 100.0}
     a = {"class": "FCNAgent", "markets": ["M"], "assetVolume": 10, "cashAmount": 1000, "fundamentalWeight": {"expon": [1.0]}, "chartWeight": {"expon": [0.0]},
          "noiseWeight": {"expon": [1.0]}, "meanReversionTime": {"uniform": [50, 100]}, "noiseScale": 0.001, "timeWindowSize": [10, 20], "orderMargin": [0.0, 0.1]}
-    (m if kind == "markets" else a).update(spec)
-    return {"simulation": {"markets": ["M"], "agents": ["A"], "sessions": [{"sessionName": 0, "iterationSteps": 1, "withOrderPlacement": False, "withOrderExecution": False, "withPrint": False}]},
-            "M": m, "A": a}
+    cfg = {"simulation": {"markets": ["M"], "agents": ["A"], "sessions": [{"sessionName": 0, "iterationSteps": 1, "withOrderPlacement": False, "withOrderExecution": False, "withPrint": False}]},
+           "M": m, "A": a}
+    base = m if kind == "markets" else a
+    names = []
+    for i, spec in enumerate(specs):
+        g = dict(base); g.update(spec)
+        if kind == "agents":
+            g["markets"] = ["M"]
+        cfg[f"G{i}"] = g; names.append(f"G{i}")
+    if kind == "markets":
+        cfg["simulation"]["markets"] = names
+        cfg["simulation"]["agents"] = []
+        del cfg["M"], cfg["A"]
+    else:
+        cfg["simulation"]["agents"] = names
+        del cfg["A"]
+    return cfg
+
+
+def _group_size(kind, spec):
+    if "from" in spec:
+        return spec["to"] - spec["from"] + 1
+    return spec.get("numMarkets" if kind == "markets" else "numAgents", 1)
 
 
 def check_expansion(case):
     import contextlib, io, random as _r
     from pams.runners import SequentialRunner
-    kind, spec = case["kind"], case["spec"]
-    cfg = expansion_cfg(kind, spec)
-    if "from" in spec:
-        want = list(range(spec["from"], spec["to"] + 1))
-    else:
-        want = list(range(spec.get("numMarkets" if kind == "markets" else "numAgents", 1)))
+    kind = case["kind"]
+    specs = case.get("specs") or [case["spec"]]
+    cfg = expansion_cfg(kind, specs)
+    sizes = [_group_size(kind, sp) for sp in specs]
     r = SequentialRunner(settings=cfg, prng=_r.Random(1))
     try:
         with contextlib.redirect_stdout(io.StringIO()):
             r._setup()
     except Exception as e:      # noqa
-        return f"{kind} {spec}: setup failed with {type(e).__name__}: {e} (expected {len(want)} entities)"
+        return f"{kind} {specs}: setup failed with {type(e).__name__}: {e} (expected {sum(sizes)} entities)"
     ents = r.simulator.markets if kind == "markets" else r.simulator.agents
-    if len(ents) != len(want):
-        return f"{kind} {spec}: {len(ents)} entities created, expected {len(want)}"
+    if len(ents) != sum(sizes):
+        return f"{kind} {specs}: {len(ents)} entities created, expected {sum(sizes)}"
     ids = [(e.market_id if kind == "markets" else e.agent_id) for e in ents]
-    if ids != list(range(len(want))):
-        return f"{kind} {spec}: ids {ids} are not unique consecutive"
+    if ids != list(range(sum(sizes))):
+        return f"{kind} {specs}: ids {ids} are not unique consecutive"
     names = [e.name for e in ents]
     if len(set(names)) != len(names):
-        return f"{kind} {spec}: names {names} are not unique"
+        return f"{kind} {specs}: names {names} are not unique"
+    per = [sum(1 for nme in names if nme == f"G{i}" or nme.startswith(f"G{i}-")) for i in range(len(specs))]
+    if per != sizes:
+        return f"{kind} {specs}: entities per group {per}, configured {sizes} (names {names})"
     return None
 
 
 def expansion_cases():
     for kind, ck in (("markets", "numMarkets"), ("agents", "numAgents")):
-        yield {"kind": kind, "spec": {}}
-        for n in (1, 2, 3):
-            yield {"kind": kind, "spec": {ck: n}}
-        for lo in (0, 3):
-            for ln in (1, 2, 3, 4):
-                yield {"kind": kind, "spec": {"from": lo, "to": lo + ln - 1}}
+        singles = [{}] + [{ck: n} for n in (1, 2, 3)] + [{"from": lo, "to": lo + ln - 1} for lo in (0, 3) for ln in (1, 2, 3, 4)]
+        for sp in singles:
+            yield {"kind": kind, "specs": [sp]}
+        # several groups: the count / range of one group must not leak into the next
+        for first in ({ck: 3}, {"from": 2, "to": 4}, {}):
+            for second in ({}, {ck: 2}, {"from": 1, "to": 2}):
+                yield {"kind": kind, "specs": [first, second]}
 
 
 CHECKS["SequentialRunner._generate_markets[count-range-names]"] = (lambda: (c for c in expansion_cases() if c["kind"] == "markets"), check_expansion)
